@@ -3,8 +3,8 @@ C12 round trip, part 3: invariants of the open table arrays, the lookup of `find
 and what `step` does on the three kinds of headers the encoder emits.
 -/
 import CueVerif.Proofs.TomlRoundInl
-open CueVerif.Toml.Spec
-namespace CueVerif.Toml
+open CueVerif.Toml CueVerif.Toml.Spec
+namespace CueVerif.Toml.Round
 
 /-- the record of the open array `[[K]]` whose list sits at `base` and has `n` elements -/
 def mkArr (K : List Name) (base : Path) (n : Nat) : OpenArr :=
@@ -168,7 +168,7 @@ theorem Encl_extend {arrays : List OpenArr} {K : List Name} {k : Name} {P : Path
 def FreshAt (K' : List Name) (s : St) : Prop :=
   (∀ key ∈ s.seen, ¬ keyPath K' <+: key) ∧ (∀ a ∈ s.arrays, ¬ keyPath K' <+: a.rkey)
 
-theorem FreshAt.findArray {K' : List Name} {s : St} (hf : FreshAt K' s) :
+theorem FreshAt.noArray {K' : List Name} {s : St} (hf : FreshAt K' s) :
     findArray s.arrays (keyPath K') = none :=
   findArray_none (fun a ha he => hf.2 a ha (he ▸ List.prefix_refl _))
 
@@ -180,7 +180,7 @@ theorem step_table {s : St} {K' : List Name} {Q : Path} (hw : WF s.arrays) (ho :
     contains_false (fun hm => hf.1 _ hm (List.prefix_refl _))
   have hne : ∀ a ∈ s.arrays, a.rkey ≠ keyPath K' :=
     fun a ha e => hf.2 a ha (e ▸ List.prefix_refl _)
-  simp only [step, hsn, findArrayPrefix, hf.findArray]
+  simp only [step, hsn, findArrayPrefix, hf.noArray]
   rcases lookup_encl hw ho he hne with ⟨h, rfl⟩ | ⟨i, a, h, hi, hl, hna, rfl⟩
   · simp [h]
   · have h1 : (a.rkey == keyPath K') = false := by simpa using hna
@@ -196,7 +196,7 @@ theorem step_arrayTable_fresh {s : St} {K' : List Name} {base : Path} (hw : WF s
     contains_false (fun hm => hf.1 _ hm (List.prefix_refl _))
   have hne : ∀ a ∈ s.arrays, a.rkey ≠ keyPath K' :=
     fun a ha e => hf.2 a ha (e ▸ List.prefix_refl _)
-  simp only [step, hsn, findArrayPrefix, hf.findArray]
+  simp only [step, hsn, findArrayPrefix, hf.noArray]
   rcases lookup_encl hw ho he hne with ⟨h, rfl⟩ | ⟨i, a, h, hi, hl, hna, rfl⟩
   · simp [h, mkArr]
   · have h1 : (a.level == K'.length) = false := by simp; omega
@@ -250,4 +250,4 @@ theorem step_arrayTable_next {s : St} {K' : List Name} {base : Path} {i : Nat}
   simp only [harr, hfilt]
   simp [mkArr]
 
-end CueVerif.Toml
+end CueVerif.Toml.Round
